@@ -1008,8 +1008,11 @@ func driveFollower(rep *kit.Report, rec *kit.Recorder, rng *rand.Rand, steps int
 		rf, rl := ref()
 		rg := int64(1 + rng.Intn(2))
 		nextFence := fence{rf.epoch, rf.lepoch + 1}
-		if rng.Intn(5) == 0 {
-			nextFence = fence{rf.epoch + 1, 1}
+		if rng.Intn(4) == 0 {
+			nextFence = fence{rf.epoch + 1, uint64(1 + rng.Intn(2))}
+		}
+		if s.phase == "absent" && rng.Intn(2) == 0 {
+			nextFence = fence{uint64(1 + rng.Intn(2)), uint64(1 + rng.Intn(2))}
 		}
 		quiet := s.phase != "loading" && len(s.pulls) == 0 && len(s.aps) == 0 && s.ckCall == nil && len(s.insts) == 0 &&
 			s.rs != "parked" && s.rs != "lagging"
@@ -1033,9 +1036,13 @@ func driveFollower(rep *kit.Report, rec *kit.Recorder, rng *rand.Rand, steps int
 						cands = append(cands, fmetaEv(nextID, rf.epoch, rf.lepoch, ld2, quorumWith(rng, ld2), rg))
 					}
 				}
-				if rf.lepoch > 1 && rng.Intn(3) == 0 {
+				if (rf.lepoch > 1 || rf.epoch > 1) && (s.phase == "loading" || rng.Intn(3) == 0) {
 					ld3 := int64(1 + rng.Intn(3))
-					cands = append(cands, fmetaEv(nextID, rf.epoch, rf.lepoch-1, ld3, quorumWith(rng, ld3), rg))
+					older := fence{rf.epoch, rf.lepoch - 1}
+					if rf.lepoch == 1 || (rf.epoch > 1 && rng.Intn(2) == 0) {
+						older = fence{rf.epoch - 1, uint64(1 + rng.Intn(3))}
+					}
+					cands = append(cands, fmetaEv(nextID, older.epoch, older.lepoch, ld3, quorumWith(rng, ld3), rg))
 				}
 			}
 		}
@@ -1297,30 +1304,33 @@ func scenarioLoadingLeaderSwitch(rep *kit.Report) {
 	rep.AddExtra("scenarios", 1)
 }
 
-// (b) with nothing scripted on the leader's side: a REAL leader group (node 2) serves the pulls.  The
-// leader process is restarted under unchanged metadata; it reloads its committed watermark from its
-// durable checkpoint, which a leader only writes before it evicts an idle runtime.
+// (b) with a REAL leader: a second reactor group (node 2, memory store) leads the channel and serves
+// the follower's pulls; the third replica only exists as the acknowledgement it sent.  The leader
+// process is restarted under unchanged metadata (the control plane has not noticed): it reloads its
+// committed watermark from its durable checkpoint, which a leader only writes before it evicts an
+// idle runtime, and with MinISR = 3 it cannot raise it again before the third replica has pulled.
 func scenarioRealLeaderRestart(rep *kit.Report) {
 	name := "real-leader-restarted-under-unchanged-metadata"
 	leaderStore := store.NewMemoryFactory()
-	meta := ch.Meta{Key: chanKey, ID: chanID, Epoch: 1, LeaderEpoch: 1, Leader: 2, Replicas: []ch.NodeID{1, 2}, ISR: []ch.NodeID{2}, MinISR: 1, Status: ch.StatusActive}
-	startLeader := func() (*reactor.Group, error) {
+	meta := ch.Meta{Key: chanKey, ID: chanID, Epoch: 1, LeaderEpoch: 1, Leader: 2, Replicas: []ch.NodeID{1, 2, 3}, ISR: []ch.NodeID{1, 2, 3}, MinISR: 3, Status: ch.StatusActive}
+	var leader *reactor.Group
+	startLeader := func() error {
 		g, err := reactor.NewGroup(reactor.Config{LocalNode: 2, ReactorCount: 1, MailboxSize: 256, Store: leaderStore, AppendBatchMaxRecords: 1,
 			Transport: scriptedTransport{newWorld()}, PullHintRetryInterval: time.Hour, IdleEvictAfter: 2000000 * time.Hour})
 		if err != nil {
-			return nil, err
+			return err
 		}
+		leader = g
 		f, err := g.Submit(context.Background(), chanKey, reactor.Event{Kind: reactor.EventApplyMeta, Key: chanKey, Meta: meta})
 		if err != nil {
-			return nil, err
+			return err
 		}
 		if _, err, infra := await(f); err != nil || infra != nil {
-			return nil, fmt.Errorf("leader ApplyMeta: %v %v", err, infra)
+			return fmt.Errorf("leader ApplyMeta: %v %v", err, infra)
 		}
-		return g, nil
+		return nil
 	}
-	leader, err := startLeader()
-	if err != nil {
+	if err := startLeader(); err != nil {
 		rep.Infra("scenario %s: %v", name, err)
 		return
 	}
@@ -1328,7 +1338,7 @@ func scenarioRealLeaderRestart(rep *kit.Report) {
 	for i := 1; i <= 3; i++ {
 		msgID++
 		f, err := leader.Submit(context.Background(), chanKey, reactor.Event{Kind: reactor.EventAppend, Key: chanKey, OpID: ch.OpID(i),
-			Append: ch.AppendBatchRequest{ChannelID: chanID, CommitMode: ch.CommitModeQuorum,
+			Append: ch.AppendBatchRequest{ChannelID: chanID, CommitMode: ch.CommitModeLocal,
 				Messages: []ch.Message{{MessageID: msgID, ChannelID: chanID.ID, ChannelType: chanID.Type, FromUID: "u", Payload: []byte{byte(i)}}}}})
 		if err != nil {
 			rep.Infra("scenario %s: append: %v", name, err)
@@ -1344,67 +1354,71 @@ func scenarioRealLeaderRestart(rep *kit.Report) {
 		return
 	}
 	defer sc.s.close()
-	// forward the follower's pull in flight to the real leader and hand its answer back
+	f11 := fenceEv(fence{1, 1})
+	// serve forwards the follower's pull in flight to the real leader and hands its answer back
 	pullOp := uint64(1 << 41)
-	serve := func() (map[string]any, error) {
+	serve := func(what string) (fview, map[string]any, bool) {
 		c := sc.s.pulls[fence{1, 1}]
-		if c == nil {
-			return nil, infraf("no pull in flight")
+		if c == nil || !sc.ok {
+			rep.Infra("scenario %s: %s: no pull in flight", name, what)
+			return fview{}, nil, false
 		}
 		pullOp++
 		f, err := leader.Submit(context.Background(), chanKey, reactor.Event{Kind: reactor.EventPull, Key: chanKey, OpID: ch.OpID(pullOp), Pull: c.pull})
 		if err != nil {
-			return nil, infraf("leader Submit(Pull): %v", err)
+			rep.Infra("scenario %s: %s: leader Submit(Pull): %v", name, what, err)
+			return fview{}, nil, false
 		}
 		r, err, infra := await(f)
 		if infra != nil || err != nil {
-			return nil, infraf("leader pull: %v %v", err, infra)
+			rep.Infra("scenario %s: %s: leader pull: %v %v", name, what, err, infra)
+			return fview{}, nil, false
 		}
 		resp := r.Pull
 		sc.s.answer = &resp
-		return kit.Ev("PullResp", "f", fenceEv(fence{1, 1}), "n", len(resp.Records), "lhw", resp.LeaderHW, "lleo", resp.LeaderLEO), nil
+		before := sc.s.cur
+		ev := kit.Ev("PullResp", "f", f11, "n", len(resp.Records), "lhw", resp.LeaderHW, "lleo", resp.LeaderLEO)
+		_, proj, _ := sc.do(ev)
+		return before, ev, sc.ok && proj != nil
 	}
-	m := map[string]any{"epoch": 1, "lepoch": 1, "leader": 2, "replicas": []int64{1, 2}, "isr": []int64{2}, "minISR": 1, "status": "active", "rg": 1}
+	m := map[string]any{"epoch": 1, "lepoch": 1, "leader": 2, "replicas": []int64{1, 2, 3}, "isr": []int64{1, 2, 3}, "minISR": 3, "status": "active", "rg": 1}
 	sc.do(kit.Ev("FMeta", "id", 1, "m", m))
 	sc.do(kit.Ev("LoadDone", "err", false))
-	ev, err := serve()
+	if _, _, ok := serve("first pull"); !ok { // records 1..3, nothing committed yet
+		return
+	}
+	sc.do(kit.Ev("ApplyDone", "f", f11))
+	// the third replica acknowledges the whole log
+	af, err := leader.Submit(context.Background(), chanKey, reactor.Event{Kind: reactor.EventAck, Key: chanKey,
+		Ack: transport.AckRequest{ChannelKey: chanKey, Epoch: 1, LeaderEpoch: 1, Follower: 3, MatchOffset: 3}})
+	if err == nil {
+		_, err, _ = await(af)
+	}
 	if err != nil {
-		rep.Infra("scenario %s: %v", name, err)
+		rep.Infra("scenario %s: ack of the third replica: %v", name, err)
 		return
 	}
-	sc.do(ev) // records 1..3, leader hw=3
-	sc.do(kit.Ev("ApplyDone", "f", fenceEv(fence{1, 1})))
-	if ev, err = serve(); err != nil {
-		rep.Infra("scenario %s: %v", name, err)
+	if _, _, ok := serve("second pull"); !ok { // carries the follower's own acknowledgement: everything is committed
 		return
 	}
-	sc.do(ev) // nothing new: the follower parks with leo=3 hw=3 checkpoint=3
-	if !sc.ok {
+	if sc.s.cur.leo != 3 || sc.s.cur.hw != 3 {
+		rep.Infra("scenario %s: follower did not learn the committed watermark from the real leader: %+v", name, sc.s.cur)
 		return
 	}
-	if sc.s.cur.leo != 3 || sc.s.cur.hw != 3 || sc.s.cur.ckpt != 3 {
-		rep.Infra("scenario %s: follower did not catch up with the real leader: %+v", name, sc.s.cur)
-		return
-	}
-	// the leader process restarts; the control plane has not noticed, the metadata is unchanged
+	// the leader process restarts; the metadata is unchanged
 	_ = leader.Close()
-	if leader, err = startLeader(); err != nil {
+	if err := startLeader(); err != nil {
 		rep.Infra("scenario %s: restart: %v", name, err)
 		return
 	}
-	sc.do(kit.Ev("Tick")) // recovery probe of the parked follower
-	before, rb := sc.s.cur, sc.s.rb
-	if ev, err = serve(); err != nil {
-		rep.Infra("scenario %s: %v", name, err)
+	sc.do(kit.Ev("Tick")) // the parked follower probes its leader (and submits the checkpoint of 3, which stays in flight)
+	rb := sc.s.rb
+	before, ev, ok := serve("pull after the restart")
+	if !ok {
 		return
 	}
 	rep.Extra("real_leader_hw_after_restart", ev["lhw"])
-	_, proj, _ := sc.do(ev)
-	if sc.ok && proj != nil {
-		judgeProbe(rep, before, rb, ev, proj, sc.replayCase())
-		if proj["ckpt"].(uint64) <= proj["hw"].(uint64) && proj["hw"].(uint64) < before.hw && rb {
-			// order kept but the watermark fell: judgeProbe reported the monotonicity finding
-		}
-	}
+	rep.Extra("real_leader_follower_hw", fmt.Sprintf("%d -> %d (checkpoint %d)", before.hw, sc.s.cur.hw, sc.s.cur.ckpt))
+	judgeProbe(rep, before, rb, ev, sc.s.cur.proj(), sc.replayCase())
 	rep.AddExtra("scenarios", 1)
 }
